@@ -182,7 +182,16 @@ func (n *lazyNode) tryAry() bool {
 // isNull reports whether n stands for a JSON null: a nil node, or a node
 // made from a null operation value.
 func (n *lazyNode) isNull() bool {
-	return n == nil || (n.which == eRaw && n.raw == nil)
+	if n == nil {
+		return true
+	}
+
+	if n.which != eRaw {
+		return false
+	}
+
+	// A null that was copied is re-encoded as the text "null": it is still a null.
+	return n.raw == nil || string(n.compact()) == "null"
 }
 
 func (n *lazyNode) equal(o *lazyNode) bool {
